@@ -8,6 +8,8 @@ EXTENDS Naturals, Sequences, FiniteSets, TLC, Json, Randomization
     C (and W, a mapped subclass of C whose direct base is an unmapped intermediate class):
                              back: Optional[A]  m: Optional[M]       peers: List[A]
     M (alternatively mapped through a mapping class) and its normally mapped subclass N:  ref: Optional[A]
+    X (alternatively mapped; the mapping keeps the collection under another name) and its normally mapped subclass Y:  pets: List[A];
+      C has x: Optional[X], parsed before back
  (0 = None; lists have up to two entries, repetitions allowed).  `root` is the object that is converted.
  Layer R: the round trip yields an ISOMORPHIC graph - same classes, same references, same list order, same
           sharing (Iso is what the replayer checks on the real objects); for SQL: one row per distinct
@@ -24,15 +26,18 @@ vars == <<cls, rec, root>>
 Obj == 1..3
 ClsChoices == { <<"A", "C", "M">>, <<"A", "B", "C">>, <<"B", "C", "M">>, <<"A", "A", "C">>, <<"A", "C", "C">>, <<"M", "A", "C">>,
                 <<"C", "M", "B">>, <<"M", "C", "M">>, <<"A", "C", "N">>, <<"N", "C", "B">>, <<"N", "C", "M">>,
-                <<"A", "W", "M">>, <<"W", "A", "C">>, <<"B", "W", "W">> }
+                <<"A", "W", "M">>, <<"W", "A", "C">>, <<"B", "W", "W">>,
+                <<"C", "Y", "A">>, <<"C", "X", "A">>, <<"Y", "A", "C">>, <<"A", "C", "X">>, <<"B", "Y", "C">> }
 AO(c) == { o \in Obj : c[o] \in {"A", "B"} }
 CO(c) == { o \in Obj : c[o] \in {"C", "W"} }        \* W = a mapped subclass of C whose direct base is an unmapped intermediate class
 MO(c) == { o \in Obj : c[o] \in {"M", "N"} }        \* N = a normally mapped subclass of the alternatively mapped M
+XO(c) == { o \in Obj : c[o] \in {"X", "Y"} }        \* X = alternatively mapped, its mapping keeps `pets` under another name; Y = normally mapped subclass of X
 Opt(S) == S \cup {0}
 Lists(S) == { <<>> } \cup { <<a>> : a \in S } \cup { <<a, b>> : a \in S, b \in S }
-Empty == [one |-> 0, other |-> 0, many |-> <<>>, back |-> 0, m |-> 0, peers |-> <<>>, ref |-> 0]
+Empty == [one |-> 0, other |-> 0, many |-> <<>>, x |-> 0, back |-> 0, m |-> 0, peers |-> <<>>, ref |-> 0, pets |-> <<>>]
 Recs(c, o) == IF c[o] \in {"A", "B"} THEN { [Empty EXCEPT !.one = a, !.other = b, !.many = l] : a \in Opt(AO(c)), b \in Opt(CO(c)), l \in Lists(CO(c)) }
-              ELSE IF c[o] \in {"C", "W"} THEN { [Empty EXCEPT !.back = a, !.m = b, !.peers = l] : a \in Opt(AO(c)), b \in Opt(MO(c)), l \in Lists(AO(c)) }
+              ELSE IF c[o] \in {"C", "W"} THEN { [Empty EXCEPT !.x = xx, !.back = a, !.m = b, !.peers = l] : xx \in Opt(XO(c)), a \in Opt(AO(c)), b \in Opt(MO(c)), l \in Lists(AO(c)) }
+              ELSE IF c[o] \in {"X", "Y"} THEN { [Empty EXCEPT !.pets = l] : l \in Lists(AO(c)) }
               ELSE { [Empty EXCEPT !.ref = a] : a \in Opt(AO(c)) }
 Space(c) == Recs(c, 1) \X Recs(c, 2) \X Recs(c, 3) \X Obj
 Init == \E c \in ClsChoices :
@@ -47,8 +52,9 @@ Refs(o) == LET r == rec[o] IN
   THEN (IF r.one # 0 THEN << <<"one", 0, r.one>> >> ELSE <<>>) \o (IF r.other # 0 THEN << <<"other", 0, r.other>> >> ELSE <<>>)
        \o [i \in DOMAIN r.many |-> <<"many", i, r.many[i]>>]
   ELSE IF cls[o] \in {"C", "W"}
-  THEN (IF r.back # 0 THEN << <<"back", 0, r.back>> >> ELSE <<>>) \o (IF r.m # 0 THEN << <<"m", 0, r.m>> >> ELSE <<>>)
+  THEN (IF r.x # 0 THEN << <<"x", 0, r.x>> >> ELSE <<>>) \o (IF r.back # 0 THEN << <<"back", 0, r.back>> >> ELSE <<>>) \o (IF r.m # 0 THEN << <<"m", 0, r.m>> >> ELSE <<>>)
        \o [i \in DOMAIN r.peers |-> <<"peers", i, r.peers[i]>>]
+  ELSE IF cls[o] \in {"X", "Y"} THEN [i \in DOMAIN r.pets |-> <<"pets", i, r.pets[i]>>]
   ELSE (IF r.ref # 0 THEN << <<"ref", 0, r.ref>> >> ELSE <<>>)
 RECURSIVE ReachFrom(_)
 ReachFrom(S) == LET S2 == S \cup UNION { { Refs(o)[i][3] : i \in DOMAIN Refs(o) } : o \in S } IN IF S2 = S THEN S ELSE ReachFrom(S2)
@@ -62,7 +68,7 @@ Children(o, rs, i, st) == IF i > Len(rs) THEN st
 Visit(o, st) == LET st0 == [st EXCEPT !.memo[o] = "prog"]
                     rs == Refs(o)
                     st1 == Children(o, rs, 1, st0)
-                    leaked == { <<o, rs[i][1], rs[i][2]>> : i \in { k \in DOMAIN rs : PlaceholderLeak /\ cls[rs[k][3]] = "M" /\ st1.memo[rs[k][3]] = "prog" } }
+                    leaked == { <<o, rs[i][1], rs[i][2]>> : i \in { k \in DOMAIN rs : PlaceholderLeak /\ cls[rs[k][3]] \in {"M", "X"} /\ st1.memo[rs[k][3]] = "prog" } }
                 IN [st1 EXCEPT !.memo[o] = "done", !.ph = @ \cup leaked]
 Result == Visit(root, [memo |-> [o \in Obj |-> "none"], ph |-> {}])
 RoundTripIso == Result.ph = {}          \* the only way the result can differ from the source in this abstraction
@@ -72,7 +78,9 @@ Rows == [VA |-> Cardinality({ o \in Reachable : cls[o] \in {"A", "B"} }),
          VC |-> Cardinality({ o \in Reachable : cls[o] \in {"C", "W"} }),
          VW |-> Cardinality({ o \in Reachable : cls[o] = "W" }),
          VM |-> Cardinality({ o \in Reachable : cls[o] \in {"M", "N"} }),
-         VN |-> Cardinality({ o \in Reachable : cls[o] = "N" })]
+         VN |-> Cardinality({ o \in Reachable : cls[o] = "N" }),
+         VX |-> Cardinality({ o \in Reachable : cls[o] \in {"X", "Y"} }),
+         VY |-> Cardinality({ o \in Reachable : cls[o] = "Y" })]
 \* the self-referential single reference `one`: two objects of the hierarchy pointing at the same target (finding F09)
 SharedOne == \E a, b \in Reachable : a # b /\ cls[a] \in {"A", "B"} /\ cls[b] \in {"A", "B"} /\ rec[a].one # 0 /\ rec[a].one = rec[b].one
 Emit == PrintT(ToJson([cls |-> cls, rec |-> rec, root |-> root, leaks |-> Result.ph # {}, reach |-> Reachable, rows |-> Rows,
